@@ -901,6 +901,11 @@ impl App {
         v
     }
 
+    /// how many of its datagrams this application has disposed of so far (queued, or given up on)
+    pub fn dgram_progress(&self) -> u32 {
+        self.dgram_next
+    }
+
     fn pump_dgrams(&mut self, conn: &mut Connection, led: &mut Ledger) {
         if self.dgram_blocked {
             return;
